@@ -451,3 +451,5 @@ SUBS = [
     Sub("fill_1d", lambda tier: programs_1d(tier), check_1d, quick=1200, thorough=6000),
     Sub("fill_nd", lambda tier: programs_nd(tier), check_nd, quick=500, thorough=4000),
 ]
+
+RULE += ' Also: histories that start from copy(include_frequencies=False) of a used histogram; find_bin with an explicit axis (1-D: index / name; N-D: one coordinate along one axis) and its refusals.'
